@@ -231,7 +231,7 @@ impl Prop for AlignLaw {
         700
     }
     fn cases(&self, tier: Tier) -> u32 {
-        tier.pick(20_000, 500_000)
+        tier.pick(200_000, 3_000_000)
     }
     fn decode(&self, t: &mut Tape, _: Tier) -> Case {
         let nstate = t.urange(1, 7);
@@ -370,7 +370,7 @@ impl Prop for LabelTimes {
         200
     }
     fn cases(&self, tier: Tier) -> u32 {
-        tier.pick(10_000, 200_000)
+        tier.pick(100_000, 1_000_000)
     }
     fn decode(&self, t: &mut Tape, _: Tier) -> TimesCase {
         let rate = *t.pick(&[48000usize, 8000, 16000, 22050, 44100, 96000]);
